@@ -41,9 +41,29 @@ def runAll (s : St) : List Ev → List String → List String
     let s' := step s e
     runAll s' es (s!"{showObs (s'.obs.drop s.obs.length)} | {summary s'}" :: acc)
 
+def parseMicro (t : String) : Option Micro.Ev :=
+  match t.splitOn ":" with
+  | ["w", id] => id.toNat?.map .write
+  | ["d"] => some .deliver
+  | ["g", id] => id.toNat?.map .giveUp
+  | ["t"] => some .tick
+  | _ => none
+
+def showMicroOutcome : Micro.Outcome → String
+  | .ok k => s!"ok:{k}"
+  | .disconnected => "disc"
+  | .cancelled => "canc"
+
+/-- `rq.micro <events>`: the final outcomes in the order the callers finished, then whether the transport is still open -/
+def microOut (s : Micro.St) : String :=
+  let l := s.log.map (fun p => s!"{p.1}={showMicroOutcome p.2}")
+  (if l.isEmpty then "-" else ",".intercalate l) ++ s!" up={if s.up then 1 else 0}"
+
 def handle : List String → Option String
   | "rq.run" :: lim :: toks =>
     (toks.mapM parseEv).map fun evs => " ; ".intercalate (runAll (init lim.toNat!) evs [])
+  | "rq.micro" :: toks =>
+    (toks.mapM parseMicro).map fun evs => microOut (Micro.run {} (evs ++ [.tick]))
   | _ => none
 
 end HapVerif.Drv.ReqConn
